@@ -269,6 +269,8 @@ def run_stage(agg, stage, scratch):
         for v in r.violations:
             v["stage"] = name
             v["stage_args"] = stage.get("args", {})
+            v["tier"] = agg.tier
+            v["cases"] = cases
             v["bin"] = stage["bin"]
             v["pkg"] = stage.get("pkg")
             agg.violations.append(v)
@@ -343,7 +345,7 @@ def write_replay(pid, v, seed):
     sig = "".join(c if c.isalnum() or c in "-_." else "_" for c in v.get("sig", "x"))[:80]
     path = os.path.join(REPLAYS, pid, "%s-%d-%s.json" % (sig, seed, v.get("index", 0)))
     rec = {"property": pid, "seed": seed, "index": v.get("index"), "sig": v.get("sig"), "stage": v.get("stage"), "bin": v.get("bin"),
-           "pkg": v.get("pkg"), "kind": v.get("kind", "native"), "stage_args": v.get("stage_args", {}), "detail": v.get("detail")}
+           "pkg": v.get("pkg"), "kind": v.get("kind", "native"), "stage_args": v.get("stage_args", {}), "tier": v.get("tier", "quick"), "cases": v.get("cases"), "detail": v.get("detail")}
     with open(path, "w") as f:
         json.dump(rec, f, indent=1)
     return path
@@ -459,7 +461,9 @@ def do_replay(pid, path):
     args = dict(rec.get("stage_args") or st.get("args", {}))
     args["scratch"] = scratch
     extra = ["--%s=%s" % (k, v) for k, v in args.items()]
-    argv = [os.path.join(outdir, st["bin"]), st["prop"], "--seed", str(seed), "--only", str(rec["index"]), "--cases", str(st["cases"])] + extra
+    # the tier and case count of the run that produced the record (they shape the case: e.g. history lengths)
+    argv = [os.path.join(outdir, st["bin"]), st["prop"], "--seed", str(seed), "--only", str(rec["index"]), "--cases", str(rec.get("cases") or st["cases"]),
+            "--tier", rec.get("tier", "quick")] + extra
     log("replaying: " + " ".join(argv))
     try:
         r = run_shard(argv, st.get("env", {}), 600, None)
